@@ -66,6 +66,15 @@ for uid, entry, defs, fns, unwind, bound, kind in [
                       what="every subset of this constructor's allocations / OS-object creations may fail: error code "
                            "returned, nothing leaked, nothing freed twice, nothing NULL dereferenced; on success the "
                            "object invariant holds and EB_DELETE releases everything"))
+from units.c15 import CRE as CRE15
+UNITS.append(Unit(
+    uid="U16.pool_creators", prop="C16", harness="harness/c15_creators.c", entry="h_creators", mode="plain",
+    functions=CRE15, keep_bodies=CRE15 + ["svt_picture_buffer_desc_ctor", "stub_pbd_dctor", "posix_memalign"], malloc_may_fail=True,
+    cbmc_flags=LEAK, unwind=4, canaries=2, min_obligations=60, cover_functions=[], timeout=600, mem_gb=16,
+    trusted=TR + ["svt_picture_buffer_desc_ctor replaced by its resource-accounting contract stub", "posix_memalign = failing malloc"],
+    what="creators of the encoder's buffer-pool elements (input / output / recon headers): every subset of their "
+         "allocations may fail: error code returned, the partial object stays reachable from the pool element and its "
+         "release frees everything exactly once (same harness as U15.4)"))
 META = {"C16": {
     "level": "proof",
     "explanation": "Per-constructor failure closure under the verifier's failing-allocation mode (every subset of "
